@@ -11,3 +11,4 @@ from vlib import common
 common.build(("rel", "dev"))
 print("driver built:", common.driver_path("rel"), common.driver_path("dev"))
 PY
+python3 -c "import sys; sys.path.insert(0,'.'); from vlib import keccak; keccak.selftest(); keccak.slot_hash_table()"
